@@ -405,7 +405,8 @@ pub fn run(ctx: &Ctx) -> Report {
         }
         rep.set("quaternion_sign_jumps_located", json!(found));
         if found == 0 && rep.fails.is_empty() {
-            rep.machinery_errors.push("no sign jump of the pose quaternion was found along any joint line".into());
+            // an implementation whose forward() never switches between q and -q has nothing to sweep here: a coverage note
+            rep.assumptions.push("no sign jump of the pose quaternion was found along any joint line: the sign-jump sweep of the Jacobian covered nothing".into());
         }
     }
     rep.traces_validated = rep.states;
